@@ -180,7 +180,7 @@ class CharacterClass(MutableSet[int]):
                 elif part[-1].islower():
                     self.positive |= value()
                 else:
-                    self.negative |= value()
+                    self._add_negated(value())
             elif part.startswith('\\p') or part.startswith('\\P'):
                 if self._re_unicode_ref.search(part) is None:
                     raise RegexError("wrong Unicode block specification %r" % part)
@@ -196,9 +196,18 @@ class CharacterClass(MutableSet[int]):
                     if part.startswith('\\p'):
                         self.positive |= subset
                     else:
-                        self.negative |= subset
+                        self._add_negated(subset)
             else:
                 self.positive.update(part)
+
+    def _add_negated(self, subset: UnicodeSubset) -> None:
+        # ~negative | ~subset is ~(negative & subset)
+        if not self.negative:
+            self.negative |= subset
+        else:
+            self.negative &= subset
+            if not self.negative:
+                self.positive.codepoints = [(0, maxunicode + 1)]
 
     def discard(self, charset: Union[int, str]) -> None:
         if isinstance(charset, int):
